@@ -14,7 +14,55 @@ static uint64_t cls(size_t n, int cmode, int hmode, int T) {
   return vh::tuple_hash({(long long)(n % 16), (long long)(n % c), rel, cmode, hmode, T});
 }
 
+
+// production constants (no size override): lengths around the real 16 MiB chunk
+static void prod_cases(Ctx &cx, bool roundtrip) {
+  const size_t c = VH_CHUNK;
+  std::vector<size_t> ns = {c - 17, c - 16, c - 1, c, c + 1, 2 * c - 16, 2 * c + 3};
+  if (cx.thorough) { ns.push_back(3 * c - 1); ns.push_back(4 * c - 16); ns.push_back(5 * c + 7); }
+  for (size_t n : ns)
+    for (int cmode = 0; cmode < 5; cmode++) {
+      if (!cx.thorough && (n + cmode + cx.seed) % 3) continue;
+      if (!cx.take()) continue;
+      vh::Rng r = cx.case_rng();
+      ops::EncParams ep;
+      ep.cmode = cmode; ep.hmode = (int)r.below(3); ep.T = r.chance(70) ? 4 : 1 + (int)r.below(6);
+      r.fill(ep.key, 16);
+      ep.seed = ops::gen_seed(r);
+      uint64_t pseed = r.next();
+      bytes P(n);
+      { // cheap non-trivial content
+        vh::Rng pr(pseed);
+        for (size_t i = 0; i < n; i += 8) { uint64_t v = pr.next(); memcpy(&P[i], &v, std::min<size_t>(8, n - i)); }
+      }
+      std::string desc = ops::params_json(n, ep, pseed);
+      cx.begin(desc);
+      ops::Result e = ops::encrypt(P, ep);
+      cx.rep.count("prod_constant_cases");
+      if (!e.ret) { cx.rep.violation(std::string(roundtrip ? "C01" : "C02") + "|prod|encrypt-returned-false", "encrypt failed with production constants", desc); continue; }
+      if (roundtrip) {
+        ops::Result d = ops::decrypt(e.out, ep.key, ep.T);
+        cx.rep.count("decrypts");
+        if (!d.ret || d.out != P) cx.rep.violation(std::string("C01|prod|") + (!d.ret ? "decrypt-returned-false" : d.out.size() != P.size() ? "roundtrip-length-differs" : "roundtrip-bytes-differ"), "round trip failed with production constants (16 MiB chunks)", desc);
+        else { cx.rep.count("roundtrips_ok"); cx.rep.dist("class", vh::tuple_hash({(long long)n, cmode, ep.T, 9999})); }
+      } else {
+        cx.rep.count("files");
+        bytes want = ref::wenc_reference(P, ep.key, ep.cmode, ep.hmode, ep.seed.data(), ep.seed.size(), ep.T, c);
+        cx.rep.count("bytes_compared", (long long)want.size());
+        if (e.out != want) {
+          size_t k = 0;
+          while (k < e.out.size() && k < want.size() && e.out[k] == want[k]) k++;
+          vh::J j;
+          j.num("first_diff", (long long)k).num("got_len", (long long)e.out.size()).num("want_len", (long long)want.size());
+          cx.rep.violation("C02|prod|mismatch", "output differs from the reference with production constants", j.done());
+        } else { cx.rep.count("files_equal_to_reference"); cx.rep.dist("class", vh::tuple_hash({(long long)n, cmode, ep.T, 9999})); }
+      }
+      cx.rep.sample(desc);
+    }
+}
+
 void run_C01(Ctx &cx) {
+  if (cx.args.s("sub") == "prod") { prod_cases(cx, true); return; }
   const size_t c = VH_CHUNK;
   const size_t nmax = 5 * c + 17;
   std::vector<int> Ts = tset(cx.thorough);
@@ -79,6 +127,7 @@ static const char *field_of(size_t off, int hmode, int T, size_t chunk, std::str
 }
 
 void run_C02(Ctx &cx) {
+  if (cx.args.s("sub") == "prod") { prod_cases(cx, false); return; }
   const size_t c = VH_CHUNK;
   const size_t nmax = cx.thorough ? 5 * c + 17 : 4 * c + 17;
   std::vector<int> Ts = tset(cx.thorough);
